@@ -24,7 +24,8 @@ META = {
                     "cells:one_valid_row", "cells:two_valid_rows", "cells:many_rows", "cells:missing_by_value",
                     "class:weighted_stddev", "class:weighted_quantile", "class:weighted_covariance", "class:datetime",
                     "class:cols", "class:ndims=0", "class:propagate", "class:ignore", "wq:rescale_checked",
-                    "class:large_offset_small_spread", "metamorphic:zero_dim_vs_one_cell", "class:zero_weights_in_metamorphic_check"]
+                    "class:large_offset_small_spread", "metamorphic:zero_dim_vs_one_cell", "class:zero_weights_in_metamorphic_check",
+                    "class:one_dimension_129+_categories"]
                 for t in ("quick", "thorough")},
     "assumptions": [
         "correlation entries with a zero-variance column or < 2 rows, and covariance entries of cells with < 2 (complete) "
@@ -45,9 +46,18 @@ def cases(ctx):
     rng = ctx.rng
     for i in range(ctx.shard["n"]):
         if i % 33 == 17:
-            # more than 1024 cells
-            mc = aggr.many_cells_case(rng)
-            c = {k: mc[k] for k in ("dense", "commons", "shape", "extents")}
+            # more than 1024 cells, or ONE dimension of 129..255 / more than 32768 categories (the
+            # narrowest coordinate types filled to more than half)
+            if rng.random() < 0.5:
+                mc = aggr.many_cells_case(rng)
+                c = {k: mc[k] for k in ("dense", "commons", "shape", "extents")}
+            else:
+                e = int(gen.pick(rng, [129, 200, 255, 256, 40000]))
+                nn = int(gen.pick(rng, [60, 300]))
+                a = rng.integers(0, e, size=nn).astype(numpy.int64)
+                a[: nn // 3] = rng.integers(max(0, e - 60), e, size=nn // 3)      # many rows in the high cells
+                c = {"dense": [a], "commons": [0], "shape": (e,), "extents": [e]}
+                ctx.count("class:one_dimension_129+_categories")
         elif i % 33 == 5:
             # cells with 256+ rows (per-cell counters on a narrow-integer boundary)
             c = gen.cube_case(rng, min_dims=0, max_dims=1, max_axes=1, max_extent=2,
@@ -325,16 +335,18 @@ def judge(ctx, case):
                 return
     # weighted quantile: invariance under rescaling all weights by a power of two
     if agg == "quantile" and case["weights"]["kind"] in ("array", "tuple"):
-        c2 = dict(case)
-        w2 = dict(case["weights"])
-        w2["values"] = case["weights"]["values"] * 4.0
-        c2["weights"] = w2
-        r2 = oracles.conform(numpy.asarray(aggr.call_x(cube, agg, c2, rma)), full)
-        ctx.count("wq:rescale_checked")
-        a, b = r.astype(float), r2.astype(float)
-        if not numpy.array_equal(numpy.isnan(a), numpy.isnan(b)) or not numpy.all(a[~numpy.isnan(a)] == b[~numpy.isnan(b)]):
-            ctx.violation("weighted-quantile-not-scale-invariant:" + feat, "rescaling all weights by 4 changes the weighted quantile", case)
-            return
+        for factor in (4.0, 2.0 ** -40, 2.0 ** 30):
+            c2 = dict(case)
+            w2 = dict(case["weights"])
+            w2["values"] = case["weights"]["values"] * factor
+            c2["weights"] = w2
+            r2 = oracles.conform(numpy.asarray(aggr.call_x(cube, agg, c2, rma)), full)
+            ctx.count("wq:rescale_checked")
+            a, b = r.astype(float), r2.astype(float)
+            if not numpy.array_equal(numpy.isnan(a), numpy.isnan(b)) or not numpy.all(a[~numpy.isnan(a)] == b[~numpy.isnan(b)]):
+                ctx.violation("weighted-quantile-not-scale-invariant:" + feat,
+                              "rescaling all weights by %g changes the weighted quantile (missing cells or values)" % factor, case)
+                return
     ctx.evaluation({"d": dense, "a": agg, "f": f, "w": case["weights"], "i": ig, "p": case.get("p")}, nontrivial)
     if ctx.evals % 137 == 1:
         ctx.sample({"dense": dense, "agg": agg, "fact": f["values"] if not is_dt else f["values"].astype("int64"),
